@@ -40,6 +40,28 @@ static const parser p(list, terms(word, 'x', "select", ','), nterms(list, item),
 static std::string run(const std::string& in, std::string* err = nullptr) {
   asked.clear(); std::stringstream e; auto r = p.parse(string_buffer(std::string(in)), e); if (err) *err = e.str(); return r ? *r : "<none>";
 }
+// custom terms whose names are in PREFIX relation ("<" and "<=", "id" and "idx"): the index the lexer returns is the position in terms(...)
+struct lexer2 {
+  template<typename It, typename Err> auto match(match_options, source_point, It start, It end, Err&) {
+    char c = *start; It n = start; ++n;
+    if (c == '<') return (!(n == end) && *n == '=') ? recognized_term(1, 2) : recognized_term(0, 1);
+    if (c >= '0' && c <= '9') return recognized_term(2, 1);
+    if (c == 'i') { size_t len = 0; for (It j = start; !(j == end) && *j >= 'a' && *j <= 'z'; ++j) ++len; return len == 3 ? recognized_term(4, 3) : recognized_term(3, len); }
+    return recognized_term{};
+  }
+};
+constexpr custom_term lt("<", [](std::string_view sv) { return std::string(sv); });
+constexpr custom_term le("<=", [](std::string_view sv) { return std::string(sv); });
+constexpr custom_term dig("digit", [](std::string_view sv) { return std::string(sv); });
+constexpr custom_term id2("id", [](std::string_view sv) { return std::string(sv); });
+constexpr custom_term idx3("idx", [](std::string_view sv) { return std::string(sv); });
+constexpr nterm<std::string> cmp("cmp");
+static const parser p2(cmp, terms(lt, le, dig, id2, idx3), nterms(cmp), rules(
+    cmp(dig, lt, dig) >= [](std::string a, std::string o, std::string b) { return a + " LT(" + o + ") " + b; },
+    cmp(dig, le, dig) >= [](std::string a, std::string o, std::string b) { return a + " LE(" + o + ") " + b; },
+    cmp(id2, lt, dig) >= [](std::string a, std::string, std::string b) { return "id:" + a + "<" + b; },
+    cmp(idx3, lt, dig) >= [](std::string a, std::string, std::string b) { return "idx:" + a + "<" + b; }), use_lexer<lexer2>{});
+template<class B> static std::string run2(const B& buf) { auto r = p2.parse(buf); return r ? *r : "<none>"; }
 int main() {
   CHECK(run("abc, X ,SELECT,x,Select") == "w:abc@1|c:X@6|s:SELECT@9|c:x@16|s:Select@18", "slices through the term functors: got " << run("abc, X ,SELECT,x,Select"));
   // asked exactly once per needed term, at its first character, after whitespace skipping
@@ -51,6 +73,19 @@ int main() {
     std::string want = "w:ab@1|w:" + big + "@4|w:cd@" + std::to_string(n + 5);
     CHECK(run(in, &e) == want, "a custom-lexer term of " << n << " bytes is not consumed as one term (" << e.substr(0, 80) << ")");
   }
+  CHECK(run2(string_buffer("2<3")) == "2 LT(<) 3" && run2(string_buffer("2 <= 3")) == "2 LE(<=) 3" && run2(string_buffer("3<=2")) == "3 LE(<=) 2", "terms with prefix-related names '<' / '<=': got " << run2(string_buffer("2<3")) << " ; " << run2(string_buffer("2 <= 3")));
+  CHECK(run2(string_buffer("ix<1")) == "id:ix<1" && run2(string_buffer("ixy<1")) == "idx:ixy<1", "terms with prefix-related names 'id' / 'idx': got " << run2(string_buffer("ix<1")) << " ; " << run2(string_buffer("ixy<1")));
+  // every buffer kind hands the functor exactly the slice the lexer returned (tokens in the middle of the text, longer than one char)
+  { const char text[] = "12 <= 34"; std::string s(text);
+    static const parser p3(cmp, terms(lt, le, dig, id2, idx3), nterms(cmp), rules(
+        cmp(dig, dig, le, dig, dig) >= [](std::string a, std::string b, std::string o, std::string c, std::string d) { return "[" + a + "][" + b + "][" + o + "][" + c + "][" + d + "]"; }), use_lexer<lexer2>{});
+    auto r1 = p3.parse(string_buffer(std::string(s))), r2 = p3.parse(string_view_buffer(std::string_view(s))), r3 = p3.parse(cstring_buffer(text));
+    std::string sub = s + " <= 99"; auto r4 = p3.parse(string_view_buffer(std::string_view(sub.data(), s.size())));
+    const char* want = "[1][2][<=][3][4]";
+    CHECK(r1 && *r1 == want, "string_buffer: slices handed to the custom terms' functors: " << (r1 ? *r1 : "<none>"));
+    CHECK(r2 && *r2 == want, "string_view_buffer: slices handed to the custom terms' functors: " << (r2 ? *r2 : "<none>"));
+    CHECK(r3 && *r3 == want, "cstring_buffer: slices handed to the custom terms' functors: " << (r3 ? *r3 : "<none>"));
+    CHECK(r4 && *r4 == want, "string_view_buffer over a sub-view: slices handed to the custom terms' functors: " << (r4 ? *r4 : "<none>")); }
   // the same with the generated lexer
   { static constexpr char pat[] = "[a-z]+"; static constexpr regex_term<pat> w("w");
     static const parser g(list, terms(w, ','), nterms(list, item), rules(list(item) >= _e1, list(list, ',', item) >= [](std::string l, skip, std::string i) { return l + "|" + i; },
